@@ -139,6 +139,13 @@ Theorem C20_document_roundtrip :
   json_number_or_plain_string doc -> pa doc = Ok v -> json_unmarshal pa doc = Ok v.
 Proof. intros A pa doc v Hs Hp. rewrite (json_unmarshal_of_shape pa doc Hs). exact Hp. Qed.
 
+(* a document that is not syntactically valid JSON is reported as an error,
+   for every type *)
+Theorem C20_malformed_document_rejected :
+  forall (A : Type) (pa : str -> res A) doc,
+  json_valid doc = false -> json_unmarshal pa doc = Err EJson.
+Proof. exact @json_unmarshal_invalid. Qed.
+
 (** * 4. totality: on arbitrary bytes every parser returns a value or an error,
       never a panic (the model has the slice expressions of the Go code as
       explicit panic sites: str[2:] in Magic, parts[2][8:len-1] in MsgAddress) *)
